@@ -187,7 +187,7 @@ theorem exec_inv {nt : Nat} (s : St) (op : Op) (h : MInv nt s) : MInv nt (exec s
     simp only [exec]
     split
     · exact h
-    · have hv := votePre_inv s.env s.cur acc pub wit h.cur
+    · have hv := (votePre_inv s.env s.cur acc pub wit h.cur).1
       cases hvp : votePre s.env s.cur acc pub wit with
       | mk l r =>
         obtain ⟨b, g⟩ := r
